@@ -16,18 +16,20 @@ func (Scenario) Generate(rng *rand.Rand, focus, tier string) kernel.Plan {
 		"vest_pool": rng.Int63n(64),
 	}
 	w := map[string]int{"regcoin": 8, "addcoin": 6, "regerc20": 6, "toggle": 4, "upderc20": 3, "param": 4, "convcoin": 16, "converc": 14,
-		"suicide": 1, "block": 24, "advance": 10, "crash": 2, "export": 1, "stake": 0}
+		"suicide": 1, "block": 24, "advance": 10, "crash": 2, "export": 1, "stake": 0, "regcoin2": 2}
 	switch focus {
 	case "C12":
 		w["regcoin"], w["addcoin"], w["upderc20"], w["toggle"], w["suicide"] = 10, 10, 6, 5, 3
-	case "C20", "C15":
+	case "C20":
 		w["param"], w["block"] = 14, 34
+	case "C15":
+		w["param"], w["block"], w["regcoin2"], w["addcoin"] = 12, 34, 8, 8
 	case "C17":
 		w["stake"] = 30
 	case "C13":
 		w["export"] = 5
 	}
-	order := []string{"regcoin", "addcoin", "regerc20", "toggle", "upderc20", "param", "convcoin", "converc", "suicide", "block", "advance", "crash", "export", "stake"}
+	order := []string{"regcoin", "addcoin", "regerc20", "toggle", "upderc20", "param", "convcoin", "converc", "suicide", "block", "advance", "crash", "export", "stake", "regcoin2"}
 	total := 0
 	for _, k := range order {
 		total += w[k]
@@ -35,11 +37,25 @@ func (Scenario) Generate(rng *rand.Rand, focus, tier string) kernel.Plan {
 	var ops []kernel.Op
 	add := func(k string, a ...int64) { ops = append(ops, kernel.Op{K: k, A: a}) }
 	// a productive prefix: register something early so that conversions have pairs to work on
-	add("regcoin", rng.Int63n(4), rng.Int63n(3))
+	add("regcoin", rng.Int63n(4), rng.Int63n(8))
 	add("regerc20", rng.Int63n(3))
 	add("block", 4, 0)
 	add("advance", 25)
 	add("block", 4, 0)
+	if (focus == "C12" || focus == "C13") && kernel.Chance(rng, 0.4) {
+		// an externally owned pair that aggregates a second denomination and is then moved to a twin contract
+		add("regerc20", 0)
+		add("block", 4, 0)
+		add("advance", 25)
+		add("block", 4, 0)
+		add("addcoin", rng.Int63n(4), rng.Int63n(8), -1)
+		add("block", 4, 0)
+		add("advance", 25)
+		add("block", 4, 0)
+		if kernel.Chance(rng, 0.7) {
+			add("upderc20", -1, 3)
+		}
+	}
 	n := 30 + rng.Intn(70)
 	for i := 0; i < n; i++ {
 		x := rng.Intn(total)
@@ -53,15 +69,17 @@ func (Scenario) Generate(rng *rand.Rand, focus, tier string) kernel.Plan {
 		}
 		switch k {
 		case "regcoin":
-			add("regcoin", rng.Int63n(4), rng.Int63n(3))
+			add("regcoin", rng.Int63n(4), rng.Int63n(8))
+		case "regcoin2":
+			add("regcoin2", rng.Int63n(4), rng.Int63n(8), rng.Int63n(8))
 		case "addcoin":
-			add("addcoin", rng.Int63n(4), rng.Int63n(3), rng.Int63n(6))
+			add("addcoin", rng.Int63n(4), rng.Int63n(8), rng.Int63n(6))
 		case "regerc20":
-			add("regerc20", rng.Int63n(3))
+			add("regerc20", rng.Int63n(4))
 		case "toggle":
 			add("toggle", rng.Int63n(6), rng.Int63n(6))
 		case "upderc20":
-			add("upderc20", rng.Int63n(6), rng.Int63n(3))
+			add("upderc20", rng.Int63n(6), rng.Int63n(4))
 		case "param":
 			add("param", rng.Int63n(5), rng.Int63n(8), rng.Int63n(2))
 		case "convcoin":
